@@ -519,3 +519,81 @@ def arcs_across_the_branch_cut(tier, rng, rep):
                         return
     finally:
         plt.close(fig)
+
+
+@bounded(P, "transform_histories", functions=[D + "Drawing.set_transform", D + "Drawing.add_transform", D + "Drawing.precompose_transform", D + "HyperbolicDrawing.draw_point", D + "ProjectiveDrawing.draw_point",
+                                               D + "HyperbolicDrawing.draw_polygon", D + "ProjectiveDrawing.draw_polygon"],
+         note="the drawing's transform after a history of constructor transform / set_transform / add_transform (a further map applied AFTER the current one) / precompose_transform (a map applied "
+              "BEFORE the current one): points and Klein / projective polygon vertices are placed at the model coordinates of the object moved by the maps in that order")
+def transform_histories(tier, rng, rep):
+    import matplotlib
+    matplotlib.use("Agg")
+    import matplotlib.pyplot as plt
+    from geometry_tools import hyperbolic as h, drawtools, projective as pr
+    N = 40 if tier == 'thorough' else 10
+    rep.rule = "histories of 2..4 steps from {constructor, set, add, precompose} with non-commuting isometries (rotation, loxodromic conjugates) / projective maps; hyperbolic drawings in 3 models, projective drawings in charts 0..2"
+    rep.bound = f"{N} histories x (3 models + 3 charts)"
+
+    def iso():
+        C = h.Point((lambda w: w / np.linalg.norm(w) * rng.uniform(0.2, 0.7))(rng.normal(size=2)), model="klein").origin_to()
+        return C @ h.Isometry.standard_rotation(rng.uniform(0.5, 2.5)) @ h.Isometry.standard_loxodromic(2, rng.uniform(1.3, 2.5))
+    for t in range(N):
+        steps = [str(rng.choice(["add", "precompose", "set"])) for _ in range(int(rng.integers(1, 4)))]
+        if t % 2 == 0:
+            steps[-1] = "add"
+        k = rng.normal(size=(4, 2)); k = k / np.linalg.norm(k, axis=-1, keepdims=True) * rng.uniform(0.1, 0.8, size=(4, 1))
+        for kind in ("poincare", "halfspace", "klein", "chart0", "chart1", "chart2"):
+            hyp = not kind.startswith("chart")
+            maps = [iso() if hyp else pr.Transformation(rng.normal(size=(3, 3)) + 2 * np.identity(3)) for _ in range(len(steps) + 1)]
+            inp = {"kind": kind, "steps": ["constructor"] + steps, "matrices": [np.asarray(m.proj_data).tolist() for m in maps], "klein_points": k.tolist()}
+
+            def body():
+                fig, ax = plt.subplots(figsize=(3, 3))
+                try:
+                    dr = drawtools.HyperbolicDrawing(model=kind, transform=maps[0], fig=fig, ax=ax) if hyp else drawtools.ProjectiveDrawing(transform=maps[0], chart_index=int(kind[-1]), fig=fig, ax=ax)
+                    # the composite the history denotes, as a plain matrix acting on column vectors (independent of the library's operator)
+                    col = lambda T: np.asarray(T.proj_data, dtype=float).T
+                    total = col(maps[0])
+                    for st, T in zip(steps, maps[1:]):
+                        if st == "add":
+                            dr.add_transform(T); total = col(T) @ total
+                        elif st == "precompose":
+                            dr.precompose_transform(T); total = total @ col(T)
+                        else:
+                            dr.set_transform(T); total = col(T)
+                    X = spec.k2proj(k[0])
+                    img = total @ X
+                    if hyp:
+                        want = spec.from_klein(img[1:] / img[0], kind)
+                        dr.draw_point(h.Point(k[0].copy(), model="klein"))
+                    else:
+                        ci = int(kind[-1])
+                        want = np.delete(img, ci) / img[ci]
+                        dr.draw_point(pr.Point(X.copy()))
+                    xy = np.array(ax.lines[-1].get_xydata())[0]
+                    if not np.all(np.abs(xy - want) <= 1e-7 * (1 + np.max(np.abs(want)))):
+                        rep.fail("placed_after_the_drawing_transform", f"after {['constructor'] + steps}: point drawn at {xy.tolist()}, the object moved by the maps in that order is at {want.tolist()}", inp); return
+                    if kind == "klein" or not hyp:
+                        V = np.array([spec.k2proj(q) for q in k])
+                        if hyp:
+                            dr.draw_polygon(h.Polygon(h.Point(k.copy(), model="klein")))
+                        else:
+                            dr.draw_polygon(pr.Polygon(V.copy()))
+                        imgs = (total @ V.T).T
+                        wantv = imgs[:, 1:] / imgs[:, :1] if hyp else np.delete(imgs, int(kind[-1]), axis=1) / imgs[:, [int(kind[-1])]]
+                        got = None
+                        for coll in list(ax.collections)[::-1] + list(ax.patches)[::-1]:
+                            try:
+                                pv = coll.get_paths()[0].vertices if hasattr(coll, "get_paths") else coll.get_path().vertices
+                            except Exception:
+                                continue
+                            got = np.asarray(pv, dtype=float)
+                            break
+                        if got is None or not all(np.min(np.linalg.norm(got - w_, axis=1)) <= 1e-6 * (1 + np.max(np.abs(wantv))) for w_ in wantv):
+                            rep.fail("placed_after_the_drawing_transform", f"after {['constructor'] + steps}: polygon vertices are not at the coordinates of the moved vertices", inp); return
+                finally:
+                    plt.close(fig)
+            rep.attempt("drawing_runs", inp, body)
+            rep.case(key=(t, kind), nontrivial="add" in steps, sample=inp if (t, kind) == (0, "poincare") else None)
+            if len(rep.failures) >= 3:
+                return
